@@ -8,7 +8,7 @@ from vf import core, lib, ref, spaces
 PID = "C03"
 LEVEL = "exploration"
 RULE = ("for n<=4 (quick) / n<=5 (thorough) teams: every weak order x every encoding of it (dense ints, floats, affine "
-        "float map, negatives, ints beyond 2^53, 2^70+r, all 2^n int/float typing patterns, bools, signed zeros, "
+        "float map, negatives, ints beyond 2^53, 2^70+r, wide dynamic range (1e17 next to unit gaps), all 2^n int/float typing patterns, bools, signed zeros, "
         "+-inf ends, non-dense gaps, each also as negated scores; ranks omitted for the identity order) x 5 classes x 2 "
         "value assignments x {K0, K5, K8 (custom gamma sensitive to the rank argument)}; all encodings must give bit-identical posteriors and the canonical one must lie "
         "in the reference interval; non-trivial = encoding differs from the canonical list as a Python object "
@@ -32,6 +32,12 @@ def encodings(r):
     enc["2p70f"] = [float(2 ** 70) * (x + 1) for x in r]
     enc["gaps"] = [x * x * 3 + x for x in r]
     enc["tiny"] = [x * 5e-324 for x in r]
+    # wide dynamic range: one value ~2^56 times larger than the gaps between the others (float absorption in any
+    # arithmetic normalisation of the values shows up as false ties)
+    enc["wide-lo"] = [(-1e17 if x == 0 else float(x)) for x in r]
+    enc["wide-hi"] = [(1e17 if x == levels - 1 else float(x)) for x in r]
+    enc["wide-small"] = [(1000.0 if x == levels - 1 else x * 1e-14) for x in r]
+    enc["wide-int"] = [(-10 ** 17 if x == 0 else x) for x in r]
     for pat in itertools.product((0, 1), repeat=n):
         if any(pat):
             enc["typ" + "".join(map(str, pat))] = [float(x) if p else x for x, p in zip(r, pat)]
